@@ -31,13 +31,14 @@ theorem noUpstream_ok {s : State} {r : Nat} {q : Req} (hq : s.reqs[r]? = some q)
   · simp only [step, stepNoUpstream, hq, hpc]
   · exact ⟨q, _, _, get_set_self hq, rfl, rfl, rfl⟩
 
-theorem dispatch_ok {s : State} {r : Nat} {q : Req} (h : HostId) (hq : s.reqs[r]? = some q) (hpc : q.pc = .start) :
+theorem dispatch_ok {s : State} {r : Nat} {q : Req} (h : HostId) (hq : s.reqs[r]? = some q) (hpc : q.pc = .start)
+    (hd : q.par.dynamic = false) :
     ∃ s1 q1, step s (.dispatch r h) = some s1 ∧ s1.cfgs = s.cfgs ∧ s1.reqs[r]? = some q1 ∧ q1.pc = .sending h ∧
       q1.par = q.par ∧ q1.retries = q.retries ∧ q1.cfg = q.cfg := by
   refine ⟨{ s with reqs := s.reqs.set r { q with pc := .sending h, incs := q.incs + 1 },
                    inflight := upd s.inflight h (s.inflight h + 1) },
           { q with pc := .sending h, incs := q.incs + 1 }, ?_, rfl, get_set_self hq, rfl, rfl, rfl, rfl⟩
-  simp only [step, stepDispatch, hq, hpc]
+  simp only [step, stepDispatch, hq, hpc, dynOk, hd]; rfl
 
 /-- a refused dial / upstream error from `sending`: finish, after, (spawn) all succeed and leave
     the request decided -/
@@ -101,6 +102,7 @@ theorem isDone_false_start {s : State} {r : Nat} {q : Req} (hd : DecidedFrom s r
     limits `retries` to 8 and the driver passes `fuel0 = 12`. -/
 theorem advance_never_runs_out_of_fuel (fuel : Nat) (d : DState) (r : Nat) (q : Req)
     (hq : d.s.reqs[r]? = some q) (hpc : q.pc = .start) (hcfg : ∃ cs, d.s.cfgs[q.cfg]? = some cs)
+    (hdyn : q.par.dynamic = false)
     (hf : q.par.retries - q.retries + 1 ≤ fuel) : (advance fuel d r).isSome = true := by
   induction fuel generalizing d q with
   | zero => omega
@@ -116,9 +118,9 @@ theorem advance_never_runs_out_of_fuel (fuel : Nat) (d : DState) (r : Nat) (q : 
       next hnd =>
         have hnd' : isDone s1 r = false := by simpa using hnd
         obtain ⟨q1, hq1, hp1, hpar, hcf, hr1, hlt⟩ := isDone_false_start hd1 hnd'
-        exact ih { d with s := s1 } q1 hq1 hp1 ⟨cs, by simp only [hc1, hcf]; exact hcs⟩ (by rw [hpar, hr1]; omega)
+        exact ih { d with s := s1 } q1 hq1 hp1 ⟨cs, by simp only [hc1, hcf]; exact hcs⟩ (by rw [hpar]; exact hdyn) (by rw [hpar, hr1]; omega)
     next u hsel =>
-      obtain ⟨s1, q1, h1, hc1, hq1, hp1, hpar1, hr1, hcf1⟩ := dispatch_ok u.2 hq hpc
+      obtain ⟨s1, q1, h1, hc1, hq1, hp1, hpar1, hr1, hcf1⟩ := dispatch_ok u.2 hq hpc hdyn
       simp only [h1]
       split
       · obtain ⟨s2, h2, hc2, hd2⟩ := endAttempt_fail_ok (out := .dialRefused) hq1 hp1 rfl
@@ -129,6 +131,7 @@ theorem advance_never_runs_out_of_fuel (fuel : Nat) (d : DState) (r : Nat) (q : 
           have hnd' : isDone s2 r = false := by simpa using hnd
           obtain ⟨q2, hq2, hp2, hpar, hcf, hr2, hlt⟩ := isDone_false_start hd2 hnd'
           exact ih { d with s := s2 } q2 hq2 hp2 ⟨cs, by simp only [hc2, hc1, hcf, hcf1]; exact hcs⟩
+            (by rw [hpar, hpar1]; exact hdyn)
             (by rw [hpar, hr2, hpar1, hr1]; rw [hpar1, hr1] at hlt; omega)
       · rfl
 
